@@ -30,13 +30,14 @@ LEVEL = {"C06": "exploration", "C07": "fault_enumeration", "C10": "exploration",
 TIERS = {
     "quick": {
         "selftest": 24, "runs": {"C06": 1400, "C07": 520, "C10": 1400, "C17": 1200},
-        "explore_wall": 50, "sweeps": 32, "micropool_len": 3, "micropools": 2, "minimise_s": 45,
-        "hash_runs": 600, "hash_seeds": 2,
+        "explore_wall": 50, "sweeps": 24, "sweeps_wall": 240, "micropool_len": 3, "micropools": 1,
+        "micropool_wall": 200, "minimise_s": 45,
+        "hash_runs": 500, "hash_seeds": 2,
     },
     "thorough": {
-        "selftest": 192, "runs": {"C06": 40000, "C07": 16000, "C10": 40000, "C17": 36000},
-        "explore_wall": 780, "sweeps": 600, "micropool_len": 4, "micropools": 3, "minimise_s": 120,
-        "hash_runs": 6000, "hash_seeds": 4,
+        "selftest": 192, "runs": {"C06": 40000, "C07": 14000, "C10": 40000, "C17": 36000},
+        "explore_wall": 720, "sweeps": 220, "sweeps_wall": 600, "micropool_len": 4, "micropools": 2,
+        "micropool_wall": 500, "minimise_s": 120, "hash_runs": 3000, "hash_seeds": 3,
     },
 }
 
@@ -359,7 +360,7 @@ def run_sweeps(c, pool):
              "oracles": c.oracles, "known": c.known_sigs, "timeout": 600, "sample": i < 2}
             for i, s in enumerate(seeds)]
     t = time.time()
-    res = pool.map(jobs, deadline=time.monotonic() + (240 if c.tier == "quick" else 3000))
+    res = pool.map(jobs, deadline=time.monotonic() + c.T["sweeps_wall"])
     out = [res[j["job_id"]] for j in jobs if j["job_id"] in res]
     agg = summarise(out)
     if agg["harness_errors"]:
@@ -382,7 +383,7 @@ def run_micropool(c, pool):
         for i, sc in enumerate(sweeps.micropool(pool_seed, c.T["micropool_len"])):
             jobs.append({"kind": "scenario", "job_id": f"p{p}_{i}", "scenario": sc, "oracles": c.oracles,
                          "known": c.known_sigs, "timeout": 120, "sample": i == 40})
-        res = pool.map(jobs, deadline=time.monotonic() + (200 if c.tier == "quick" else 2400))
+        res = pool.map(jobs, deadline=time.monotonic() + c.T["micropool_wall"])
         out = [res[j["job_id"]] for j in jobs if j["job_id"] in res]
         total["sequences"] += len(out)
         total["complete"] += int(len(out) == len(jobs))
